@@ -894,7 +894,7 @@ func runImpl(h *history, dir string) (res *runResult) {
 	lastFetched := "" // the URI of the last request of the previous round (see the end of the loop)
 
 	var window []winObs
-	gohlslib.VerifSetHook(func(point string) {
+	unhook := setLocalHook(func(point string) {
 		if point != "rotateSegments:unlocked" || h.Variant == 1 {
 			return
 		}
@@ -914,7 +914,7 @@ func runImpl(h *history, dir string) (res *runResult) {
 			window = append(window, winObs{si: si, pm: pm, init: fetch(m, pm.mapURI).body})
 		}
 	})
-	defer gohlslib.VerifSetHook(nil)
+	defer unhook()
 	ntpLoc := []*time.Location{time.UTC, time.FixedZone("east", 2*3600), time.FixedZone("west", -(5*3600 + 1800))}[(len(h.Ops)+h.SegCount)%3]
 	for k := range h.Ops {
 		a := &h.Ops[k]
